@@ -205,7 +205,9 @@ def obligations(tier, seed):
     shapes = [['ii', 'ii'], [], ['i', 'ii', '']]
     for i, spec in enumerate(STATIC):
         for j, shape in enumerate(shapes):
-            if quick and j != (i + seed) % 2 and not (spec[4].endswith('+') and j < 2):
+            if spec[2] is not None and shape and len(shape[0]) != len(spec[2]):
+                continue      # a header whose length differs from the first record is itself an (IO-handling) error, reported first
+            if quick and j != (i + seed) % 2 and not (spec[4].endswith('+') and j < 2) and spec[2] is None:
                 continue
             obs.append(_static_obl(spec, shape, 120 if quick else 600))
     cfgs = [(',', 'quoted', 'utf-8', '\t', 'simple', 'select a1, a2'), (',', 'quoted_rfc', None, ',', 'quoted', 'select a1, a2'),
